@@ -414,6 +414,11 @@ func (g *Gen) rowFor(t string, insert bool, pending map[string][]string) map[str
 
 // Txn generates one transaction.
 func (g *Gen) Txn() []AOp {
+	if g.chance(0.25 * g.P.Index / 0.3 * 0.3) {
+		if ops := g.Scenario(); ops != nil {
+			return ops
+		}
+	}
 	nops := 1 + g.pick(g.P.MaxOps)
 	tables := g.tableNames()
 	pending := map[string][]string{}
@@ -787,4 +792,235 @@ func (g *Gen) MarkerRow(t, name string, n int) map[string]interface{} {
 		}
 	}
 	return row
+}
+
+// ---------------------------------------------------------------- scenarios
+//
+// Multi-operation patterns around unique indexes that random choice rarely
+// assembles: swapping indexed values, delete + insert of the same value,
+// a touched non-root row that is garbage collected while another row takes
+// over its index value.
+
+func (g *Gen) rootSemantics() func(string) bool {
+	any := false
+	for _, t := range g.S.Tables {
+		if t.IsRoot {
+			any = true
+		}
+	}
+	return func(t string) bool { return !any || g.S.Tables[t].IsRoot }
+}
+
+type referrer struct {
+	table, uuid, col, pos string
+}
+
+// strongReferrers lists where row u of table t is strongly referenced from.
+func (g *Gen) strongReferrers(t, u string) []referrer {
+	var out []referrer
+	for ft, tb := range g.S.Tables {
+		for cn, c := range tb.Cols {
+			for fu, row := range g.St[ft] {
+				v := row[cn]
+				has := func(x interface{}) bool { s, ok := x.(string); return ok && s == u }
+				if c.Key.Ref == t && c.Key.RT != "weak" {
+					switch KindOf(c) {
+					case "atom":
+						if has(v) {
+							out = append(out, referrer{ft, fu, cn, "atom"})
+						}
+					case "opt", "set":
+						for _, e := range v.([]interface{}) {
+							if has(e) {
+								out = append(out, referrer{ft, fu, cn, KindOf(c)})
+							}
+						}
+					case "map":
+						for _, p := range v.([]interface{}) {
+							if has(p.([]interface{})[0]) {
+								out = append(out, referrer{ft, fu, cn, "mapkey"})
+							}
+						}
+					}
+				}
+				if KindOf(c) == "map" && c.Val.Ref == t && c.Val.RT != "weak" {
+					for _, p := range v.([]interface{}) {
+						if has(p.([]interface{})[1]) {
+							out = append(out, referrer{ft, fu, cn, "mapval"})
+						}
+					}
+				}
+			}
+		}
+	}
+	return out
+}
+
+func byUUID(u string) [][]interface{} { return [][]interface{}{{"_uuid", "==", u, "atom"}} }
+
+// indexedTables returns the tables that have an index over atom columns only and at least n rows.
+func (g *Gen) indexedTables(n int) []string {
+	var out []string
+	for _, t := range g.tableNames() {
+		tb := g.S.Tables[t]
+		ok := false
+		for _, ix := range tb.Indexes {
+			all := true
+			for _, cn := range ix {
+				if KindOf(tb.Cols[cn]) != "atom" || !tb.Cols[cn].Mut {
+					all = false
+				}
+			}
+			if all {
+				ok = true
+			}
+		}
+		if ok && len(g.St[t]) >= n {
+			out = append(out, t)
+		}
+	}
+	return out
+}
+
+func (g *Gen) indexCols(t string) []string {
+	tb := g.S.Tables[t]
+	seen := map[string]bool{}
+	var out []string
+	for _, ix := range tb.Indexes {
+		for _, cn := range ix {
+			if !seen[cn] {
+				seen[cn] = true
+				out = append(out, cn)
+			}
+		}
+	}
+	return out
+}
+
+// Scenario returns a scripted transaction, or nil when the state does not allow one.
+func (g *Gen) Scenario() []AOp {
+	norm := func(ops []AOp) []AOp {
+		for i := range ops {
+			ops[i].Normalize()
+		}
+		return ops
+	}
+	switch g.pick(3) {
+	case 0: // swap the indexed values of two rows
+		ts := g.indexedTables(2)
+		if len(ts) == 0 {
+			return nil
+		}
+		t := ts[g.pick(len(ts))]
+		us := g.uuidsOf(t)
+		a, b := us[g.pick(len(us))], us[g.pick(len(us))]
+		if a == b {
+			return nil
+		}
+		ra, rb := map[string]interface{}{}, map[string]interface{}{}
+		for _, cn := range g.indexCols(t) {
+			ra[cn] = g.St[t][b][cn]
+			rb[cn] = g.St[t][a][cn]
+		}
+		return norm([]AOp{{Op: "update", Table: t, Where: byUUID(a), Row: ra}, {Op: "update", Table: t, Where: byUUID(b), Row: rb}})
+	case 1: // delete a row and insert another one with its indexed values (either order of operations)
+		ts := g.indexedTables(1)
+		if len(ts) == 0 {
+			return nil
+		}
+		t := ts[g.pick(len(ts))]
+		if !g.rootSemantics()(t) {
+			return nil
+		}
+		us := g.uuidsOf(t)
+		a := us[g.pick(len(us))]
+		row := g.MarkerRow(t, "x", g.next)
+		for _, cn := range g.indexCols(t) {
+			row[cn] = g.St[t][a][cn]
+		}
+		del := AOp{Op: "delete", Table: t, Where: byUUID(a)}
+		ins := AOp{Op: "insert", Table: t, UUID: g.fresh(), Row: row}
+		ops := []AOp{del, ins}
+		if g.chance(0.5) {
+			ops = []AOp{ins, del}
+		}
+		if g.chance(0.5) {
+			// a later operation whose condition matches the committed version of the deleted row
+			ops = append(ops, AOp{Op: "select", Table: t, Where: [][]interface{}{}})
+		}
+		return norm(ops)
+	default: // a touched non-root row loses its referrers; another row takes over its indexed values
+		isRoot := g.rootSemantics()
+		var cands []string
+		for _, t := range g.indexedTables(1) {
+			if !isRoot(t) {
+				cands = append(cands, t)
+			}
+		}
+		if len(cands) == 0 {
+			return nil
+		}
+		t := cands[g.pick(len(cands))]
+		us := g.uuidsOf(t)
+		n := us[g.pick(len(us))]
+		refs := g.strongReferrers(t, n)
+		var ops []AOp
+		// touch it first: it enters the transaction's own cache
+		if g.chance(0.5) {
+			ops = append(ops, AOp{Op: "select", Table: t, Where: byUUID(n)})
+		} else {
+			var touched bool
+			for _, cn := range g.S.Tables[t].ColNames() {
+				c := g.S.Tables[t].Cols[cn]
+				idx := false
+				for _, ic := range g.indexCols(t) {
+					if ic == cn {
+						idx = true
+					}
+				}
+				if !idx && c.Mut && KindOf(c) == "atom" && c.Key.Ref == "" {
+					ops = append(ops, AOp{Op: "update", Table: t, Where: byUUID(n), Row: map[string]interface{}{cn: g.value(c, nil)}})
+					touched = true
+					break
+				}
+			}
+			if !touched {
+				ops = append(ops, AOp{Op: "select", Table: t, Where: byUUID(n)})
+			}
+		}
+		// drop every strong reference to it
+		var keeper *referrer
+		for i, r := range refs {
+			if r.table == t && r.uuid == n {
+				return nil // references itself: never collected
+			}
+			c := g.S.Tables[r.table].Cols[r.col]
+			switch r.pos {
+			case "set":
+				if c.Min > 0 {
+					return nil
+				}
+				ops = append(ops, AOp{Op: "mutate", Table: r.table, Where: byUUID(r.uuid), Mutations: [][]interface{}{{r.col, "delete", []interface{}{n}, "set"}}})
+				if keeper == nil && isRoot(r.table) && c.Max < 0 {
+					keeper = &refs[i]
+				}
+			case "opt":
+				ops = append(ops, AOp{Op: "update", Table: r.table, Where: byUUID(r.uuid), Row: map[string]interface{}{r.col: []interface{}{}}})
+			default:
+				return nil // atom and map positions: keep the scenario simple
+			}
+		}
+		if keeper == nil {
+			return nil
+		}
+		// the successor: same indexed values, referenced from where the old row was
+		nu := g.fresh()
+		row := g.MarkerRow(t, "x", g.next)
+		for _, cn := range g.indexCols(t) {
+			row[cn] = g.St[t][n][cn]
+		}
+		ops = append(ops, AOp{Op: "insert", Table: t, UUID: nu, Row: row})
+		ops = append(ops, AOp{Op: "mutate", Table: keeper.table, Where: byUUID(keeper.uuid), Mutations: [][]interface{}{{keeper.col, "insert", []interface{}{nu}, "set"}}})
+		return norm(ops)
+	}
 }
